@@ -7,14 +7,16 @@ package calendar
 //@ # ================================================================ C12: fortune periods
 
 //@ # position in the sixty-cycle of the pair (stem g, branch z) of equal parity
-//@ spec func cyc(g int, z int) int
+//@ opaque spec func cyc(g int, z int) int
 //@   = modf(36*g+25*z, 60)
 //@ lemma jiaZiOfPair(g int, z int) [C12 C16]
+//@   reveal cyc
 //@   requires 0 <= g && g <= 9 && 0 <= z && z <= 11 && modf(g, 2) == modf(z, 2)
 //@   ensures LunarUtil.GetJiaZiIndex(LunarUtil.GAN[g+1]+LunarUtil.ZHI[z+1]) == cyc(g, z) && modf(cyc(g, z), 10) == g && modf(cyc(g, z), 12) == z
 //@   split g in 0..9
 
 //@ lemma cycOfNumber(n int) [C12 C16]
+//@   reveal cyc
 //@   requires -10 <= n && n <= 6000000
 //@   ensures cyc(modf(n, 10), modf(n, 12)) == modf(n, 60)
 //@   split modf(n, 60) in 0..59
